@@ -13,17 +13,20 @@ Local Open Scope N_scope.
 
 Section Build.
 Variable cap : nat.
+Variable ep : N.
 Variable lam : fev -> N.
 Variable vals : list (N * N).
 Hypothesis Hvals : vals_ok vals.
+Variable J : N -> Prop.
 Variable K : N.
+Hypothesis HJ : forall a, J a -> id_fresh K a.   (* no rejected id looks like a temporary id *)
 
 Notation ws := (map snd vals).
 Notation nv := (length vals).
-Notation ae := (to_aevent lam vals).
-Notation Core := (Core lam vals).
+Notation ae := (to_aevent ep lam vals).
+Notation Core := (Core ep lam vals).
 Notation cache_inv := (cache_inv vals).
-Notation Sim := (Sim lam vals K).
+Notation Sim := (Sim ep lam vals J K).
 
 Lemma build_step i T Dr B e : Sim i T Dr B ->
   parents_known T e -> (ecr (fe e) < nv)%nat -> ev_wf T e -> nlookup (eid (fe e)) T = None ->
@@ -38,39 +41,41 @@ Proof.
   (* the guard (no duplicate check for Build) *)
   assert (G : guard i (ae e) false = None).
   { unfold guard. fold st. cbn [andb to_aevent a_id a_epoch a_parents a_creator].
-    rewrite (co_epoch _ _ _ _ _ _ _ C). cbn [N.eqb Pos.eqb negb].
+    rewrite (co_epoch _ _ _ _ _ _ _ _ C), N.eqb_refl. cbn [negb].
     replace (forallb (fun p => AbftRun.mem p (i_proc i)) (epar (fe e))) with true.
     2:{ symmetry. apply forallb_forall. intros p Hp. apply mem_true, PR. destruct (PK p Hp) as [m L].
         apply nlookup_some in L as [Hm Em]. destruct (node_event vals T Dr m W Hm) as [e0 [He0 [E0 _]]].
         unfold ids_of. apply in_map_iff. exists e0. split; [congruence | exact He0]. }
-    cbn [negb]. rewrite (co_vals _ _ _ _ _ _ _ C), (v_exists_vid vals _ (vals_nodup vals Hvals) CR). reflexivity. }
+    cbn [negb]. rewrite (co_vals _ _ _ _ _ _ _ _ C), (v_exists_vid vals _ (vals_nodup vals Hvals) CR). reflexivity. }
   cbn [step]. rewrite G. fold st es.
   unfold build_with. set (c := l_ctr st + 1).
   assert (Sc : sample c = Some (be 24 c)).
   { unfold sample. replace (2 ^ 192 <=? c) with false by (symmetry; apply N.leb_gt; exact Hctr). reflexivity. }
   rewrite Sc. cbn [to_aevent a_epoch a_lamport].
-  set (tmp := mk_id_bytes 1 (lam e) (be 24 c)).
+  set (tmp := mk_id_bytes ep (lam e) (be 24 c)).
   set (e' := {| fe := {| eid := tmp; ecr := ecr (fe e); eseq := eseq (fe e); epar := epar (fe e) |}; ffr := ffr e |}).
   set (x := set_id (ae e) tmp).
   (* the temporary id is not the id of an indexed event, nor an older temporary id *)
   assert (NLt : nlookup tmp T = None).
   { destruct (nlookup tmp T) as [m|] eqn:L; [|reflexivity]. exfalso. apply nlookup_some in L as [Hm Em].
     destruct (node_event vals T Dr m W Hm) as [e0 [He0 [E0 _]]].
-    apply (FR e0 He0). exists 1, (lam e), c, (be 24 c). split; [unfold c; lia|]. split; [exact Sc|]. rewrite E0, Em. reflexivity. }
-  assert (NTt : ~ is_temp (l_ctr st) tmp).
-  { intros (ep & lm & c2 & t2 & Bc & S2 & E2). apply (temp_id_inj _ _ _ _ _ _ _ _ Sc S2) in E2. unfold c in E2. lia. }
+    apply (proj1 (FR e0 He0)). exists ep, (lam e), c, (be 24 c). split; [unfold c; lia|]. split; [exact Sc|]. rewrite E0, Em. reflexivity. }
+  assert (NTt : ~ stale J (l_ctr st) tmp).
+  { intros [(ep0 & lm & c2 & t2 & Bc & S2 & E2)|Jt].
+    - apply (temp_id_inj _ _ _ _ _ _ _ _ Sc S2) in E2. unfold c in E2. lia.
+    - apply (HJ _ Jt). exists ep, (lam e), c, (be 24 c). split; [unfold c; lia|]. split; [exact Sc | reflexivity]. }
   cbn [l_vals l_idx l_epoch set_ctr].
-  rewrite (co_vals _ _ _ _ _ _ _ C).
+  rewrite (co_vals _ _ _ _ _ _ _ _ C).
   assert (Vx : vev vals x = fe e').
   { unfold vev, x, set_id, to_aevent. cbn [a_id a_creator a_seq a_parents].
     rewrite (v_idx_vid vals _ (vals_nodup vals Hvals) CR). reflexivity. }
   rewrite Vx.
   assert (EW' : ev_wf T e') by exact EW.
   assert (PK' : parents_known T e') by exact PK.
-  pose proof (accepted_wf_new lam vals st es T Dr T e' C PK' NLt CR EW') as WN.
-  destruct (add_preserves nv (l_idx st) (fe e') (co_vinv _ _ _ _ _ _ _ C) WN) as [s' [Hadd [I' Ev']]].
+  pose proof (accepted_wf_new ep lam vals st es T Dr T e' C PK' NLt CR EW') as WN.
+  destruct (add_preserves nv (l_idx st) (fe e') (co_vinv _ _ _ _ _ _ _ _ C) WN) as [s' [Hadd [I' Ev']]].
   rewrite Hadd.
-  replace (a_epoch x =? l_epoch st) with true by (symmetry; rewrite (co_epoch _ _ _ _ _ _ _ C); reflexivity).
+  replace (a_epoch x =? l_epoch st) with true by (symmetry; rewrite (co_epoch _ _ _ _ _ _ _ _ C); apply N.eqb_refl).
   replace (v_exists vals (a_creator x)) with true by (symmetry; apply (v_exists_vid vals _ (vals_nodup vals Hvals) CR)).
   cbn [negb orb].
   set (st0 := set_ctr st c).
@@ -85,13 +90,13 @@ Proof.
       + exfalso. exact (nlookup_none _ _ NLt m Hm Em).
       + apply F; [exact He0 | exists m; auto].
     - intros y Hy. right. exact Hy. }
-  assert (CIa : cache_inv (l_ctr st) (set_idx st0 s') (n' :: T) T).
+  assert (CIa : cache_inv (stale J (l_ctr st)) (set_idx st0 s') (n' :: T) T).
   { intros a b r Hc. destruct (CI a b r Hc) as [Tm|(na & nb & Ia & Ib & R)]; [left; exact Tm|].
     right. exists na, nb. split; [right; exact Ia | auto]. }
-  destruct (calc_frame_sim cap lam vals Hvals (set_idx st0 s') es (n' :: T) (e' :: Dr) T (l_ctr st) (n' :: T) n' x false
+  destruct (calc_frame_sim cap ep lam vals Hvals (set_idx st0 s') es (n' :: T) (e' :: Dr) T (stale J (l_ctr st)) (n' :: T) n' x false
               C1 (incl_refl _) (or_introl eq_refl) NTt eq_refl CIa) as [c1 [ECF CI1]].
   rewrite ECF.
-  rewrite (frame_build_sim lam vals Hvals (set_idx st0 s') es T Dr e' x C1 eq_refl eq_refl).
+  rewrite (frame_build_sim ep lam vals Hvals (set_idx st0 s') es T Dr e' x C1 eq_refl eq_refl).
   fold n'. unfold n'. rewrite (frame_high_rename vals T HwfT e e' eq_refl eq_refl eq_refl eq_refl NL NLt).
   set (st' := set_idx (set_fcc (set_idx st0 s') c1) (l_idx st0)).
   exists {| i_st := st'; i_es := es; i_proc := i_proc i |}. split; [reflexivity|]. split; [|reflexivity].
@@ -101,8 +106,9 @@ Proof.
     + apply Core_fcc, Core_ctr. exact C.
     + intros a b r Hc. cbn [l_fcc set_fcc] in Hc.
       destruct (CI1 a b r Hc) as [Tm|(na & nb & [<-|Ia] & Ib & Ea & Eb & R)].
-      * left. destruct Tm as (ep & lm & c2 & t2 & Bc & S2 & E2). exists ep, lm, c2, t2. split; [unfold c; lia | auto].
-      * left. rewrite <- Ea. exists 1, (lam e), c, (be 24 c). split; [unfold c; lia|]. split; [exact Sc | reflexivity].
+      * left. destruct Tm as [(ep0 & lm & c2 & t2 & Bc & S2 & E2)|Jn]; [left | right; exact Jn].
+        exists ep0, lm, c2, t2. split; [unfold c; lia | auto].
+      * left. left. rewrite <- Ea. exists ep, (lam e), c, (be 24 c). split; [unfold c; lia|]. split; [exact Sc | reflexivity].
       * right. exists na, nb. auto.
     + exact I0.
     + exact N0.
